@@ -432,7 +432,7 @@ func ruleFileLookup(c *Ctx, prefix string, fn *ssa.Function, v6 bool, g *ssa.Glo
 }
 
 func ruleFileWatch(c *Ctx, prefix string) {
-	sf := c.P.Func("plugins/file", "", "setupFile")
+	sf := c.P.Anchor("setupFile")
 	if sf == nil {
 		c.R.Fatalf("ANCHOR-UNRESOLVED: file.setupFile")
 		return
@@ -479,15 +479,15 @@ func ruleFileWatch(c *Ctx, prefix string) {
 					bad = append(bad, fmt.Sprintf("the watcher leaves its loop at %s: after one failed (or any) reload later updates are never picked up", c.P.InstrPos(in)))
 				case *ssa.Call:
 					if f := x.Call.StaticCallee(); f != nil {
-						if f.Name() == "loadFromFile" {
+						if isAnchor(f, "loadFromFile") {
 							reload = true
 						}
 						for _, g := range inlineFuncs(f) {
-							if g.Name() == "loadFromFile" {
+							if isAnchor(g, "loadFromFile") {
 								reload = true // through a helper extracted from the loop body
 							}
 						}
-						if strings.Contains(fnCalls(f), "/plugins/file.loadFromFile") && defaultInline(w, f) {
+						if strings.Contains(fnCalls(f), "/plugins/file."+anRaw("loadFromFile")) && defaultInline(w, f) {
 							reload = true
 						}
 					}
